@@ -61,6 +61,9 @@ func histJudge(prop string, cfg histCfg, o *histObs) []finding {
 		mode = "insession"
 	}
 	log := o.W.T.Log
+	if prop == "C10" && o.W.T.DeadCtxSends > 0 {
+		add("retry-on-used-up-attempt-context", "%d transmissions were attempted with a per-attempt context whose deadline had already passed in an earlier attempt (a real socket refuses them, so the retry never reaches the BMC)", o.W.T.DeadCtxSends)
+	}
 	if cfg.HSAlphabet != "" && prop == "C10" {
 		free := false // an answer after which the text leaves the outcome open
 		for k, cl := range o.HS.Classes {
